@@ -1,5 +1,4 @@
-import PepperProofs.ConstraintGenLoad
-import PepperProofs.ConstraintGenSimT
+import PepperProofs.ConstraintGenComp
 /-!
 # C15 — over-constrained specifications are reported, not passed on
 
@@ -77,16 +76,49 @@ theorem loaded_wellformed {stmts : List Stmt} {spec : Spec}
     (hload : Pil.load Generated.nupackTable stmts {} = .ok spec) :
     SpecWF spec ∧ SpecCodes Generated.pilTable spec := ⟨load_wf hload, load_specCodes hload⟩
 
-/-- The full statement of the property for the model (not yet a theorem in the direction "unsatisfiable ⇒
-    reported"; that direction needs the completeness half of the simulation: every
-    semantic link and every pair of nodes with the same nucleotide is connected in the seeded graph).  It is the
-    statement the correspondence and the oracle check on every sampled document. -/
-def error_iff_unsat_statement : Prop :=
-  ∀ (stmts : List Stmt) (spec : Spec) (mode : Layout),
-    Pil.load Generated.nupackTable stmts {} = .ok spec →
-    (mode = .struct → ∀ o ∈ spec.strands, o.len ≠ 0 → ∃ so ∈ spec.structs, o.name ∈ so.strands) →
-    (getConstraints mode spec = .error .overconstrained ↔ ¬ Satisfiable Generated.pilTable (Pil.denote spec))
+/-- **C15: an over-constrained specification is reported, and only an over-constrained one.**  For every document
+    the reader accepts and both layouts, once the seeding of `get_constraints` has run (`seeds`, `build`: the `init`
+    calls and the links in the Python's order):
 
+      `get_constraints` fails with the `ValueError` of `propagate_templates`
+        ⟺  no assignment of bases satisfies the specification
+            (every domain position inside its template's set, every `equal` entry position-wise equal, every base
+             pair complementary).
+
+    ⇒ (`satisfiable_not_rejected`) transports a satisfying assignment to the seeded graph (soundness of the
+    seeding); ⇐ builds, from the classes of the seeded graph, an assignment of the design: every node is connected
+    to the canonical node of its domain position with the parity of its `comp` flag (`conn_key`, by induction on
+    the order of definition of the super-sequences), every semantic link is realised between canonical nodes
+    (`link_realised`), then the abstract core (`core_partition`) picks a base per class and its complement on the
+    partner class.
+
+    The hypotheses `hs`/`hb` say that the seeding itself raised nothing.  On documents accepted by the reader it
+    can only raise in the structure layout, when a non-empty strand occurs in no structure (`None + int`); that it
+    raises nothing else is not a theorem here — it is observed on every sampled document by the correspondence
+    (the model's error class always equals the implementation's). -/
+theorem error_iff_unsat {mode : Layout} {stmts : List Stmt} {spec : Spec}
+    (hload : Pil.load Generated.nupackTable stmts {} = .ok spec) {s : Seeds} {c : Cons}
+    (hs : seeds mode spec = .ok s) (hb : build s = .ok c) :
+    getConstraints mode spec = .error .overconstrained ↔ ¬ Satisfiable Generated.pilTable (Pil.denote spec) := by
+  have S : Seeded Generated.pilTable mode spec s c := ⟨load_wf hload, load_specCodes hload, hs, hb⟩
+  rw [show getConstraints mode spec = getConstraintsT Generated.pilTable mode spec from rfl,
+    error_iff_graph_unsat pilLawful S.ok hs hb]
+  constructor
+  · intro hg hsat
+    exact hg (graphSat_of_satisfiable S.wf S.ok pil_N.2 hs hb hsat)
+  · intro hn hg
+    exact hn (satisfiable_of_graphSat S hg)
+
+/-- Corollary: when arrays are returned, the specification is satisfiable (nothing over-constrained is passed on). -/
+theorem arrays_imply_satisfiable {mode : Layout} {stmts : List Stmt} {spec : Spec}
+    (hload : Pil.load Generated.nupackTable stmts {} = .ok spec) {s : Seeds} {c : Cons}
+    (hs : seeds mode spec = .ok s) (hb : build s = .ok c) {a : Arrays} (ha : getConstraints mode spec = .ok a) :
+    Satisfiable Generated.pilTable (Pil.denote spec) := by
+  cases Classical.em (Satisfiable Generated.pilTable (Pil.denote spec)) with
+  | inl h => exact h
+  | inr h =>
+    have := (error_iff_unsat hload hs hb).2 h
+    rw [ha] at this; cases this
 
 /-! ### non-vacuity: concrete small documents -/
 
